@@ -53,6 +53,7 @@ fn main() {
                     props::c02::run(tier)
                 }
                 "C14" => props::c14::run(tier),
+                "C06" => props::c06::run(tier),
                 other => {
                     eprintln!("unknown property {other}");
                     2
@@ -94,6 +95,7 @@ fn main() {
                     props::c02::replay(&v)
                 }
                 "C14" => props::c14::replay(&v),
+                "C06" => props::c06::replay(&v),
                 other => {
                     eprintln!("unknown property {other}");
                     2
@@ -104,6 +106,7 @@ fn main() {
         }
         "e3shard" => e3::shard_main(&args[2..], &|prop, tier| match prop {
             "C14" => props::c14::bodies(tier),
+            "C06" => props::c06::bodies(tier),
             _ => vec![],
         }),
         "drv" => {
